@@ -215,6 +215,10 @@ def dictated (c : Coin) (signed : List Signed) (h : Hist) (j : Nat) : Char :=
           | 'E' => if dataOnly then '?' else 'E'    -- a changed key may not even parse: then the message is never asked for
           | v => v
         else '?'
+  | none, some _, some uo =>
+    -- no signed unlocking data sits here; when an earlier step rewrote the script being satisfied into something that is no
+    -- standard template (NOPs around a witness program make it anyone-can-spend) the interpreter decides, not a commitment
+    if (spkTemplate uo.script).1 == .other then '?' else '0'
   | _, _, _ => '0'
 
 def verdicts (c : Coin) (signed : List Signed) (h : Hist) : String :=
